@@ -299,7 +299,33 @@ def run_bounded(chk, items, evalfn, chunks=64):
         return
     k = max(1, min(chunks, len(items)))
     parts = [items[i::k] for i in range(k)]
-    for counts, viols, samples in parallel_map(evalfn, parts):
+    pid = chk.pid
+
+    def guarded(part, evalfn=evalfn, pid=pid):
+        """an exception escaping the evaluation of a case is raised by the real code on an input of the bounded layer: it is reported
+        as a violation for that case (with the traceback's last frame), not as a crash of the checker"""
+        try:
+            return evalfn(part)
+        except Exception:        # noqa: BLE001
+            counts, viols, samples = {}, [], []
+            for it in part:
+                try:
+                    c_, v_, s_ = evalfn([it])
+                except Exception as e:        # noqa: BLE001
+                    import traceback
+                    tb = traceback.extract_tb(e.__traceback__)
+                    where = f"{os.path.basename(tb[-1].filename)}:{tb[-1].lineno} in {tb[-1].name}" if tb else "?"
+                    c_, s_ = {"raised": [1, 1]}, []
+                    v_ = [("raised", f"{pid}/bounded/raised-{type(e).__name__}", f"the real code raised {type(e).__name__}: {e} (at {where}) on the bounded-layer case {str(it)[:400]}",
+                           it if isinstance(it, dict) else {"item": str(it)[:400]})]
+                for cl, (n, nt) in c_.items():
+                    a = counts.setdefault(cl, [0, 0])
+                    a[0] += n
+                    a[1] += nt
+                viols += list(v_)
+                samples += list(s_)
+            return counts, viols, samples
+    for counts, viols, samples in parallel_map(guarded, parts):
         for cl, (n, nt) in counts.items():
             chk.count(cl, n, nt)
         for cl, key, what, case in viols:
